@@ -103,6 +103,12 @@ func init() {
 		if args[0].K == VTerm {
 			// nil receiver prints "<nil>"
 			ex.vc.declareFun("optint_str", []string{SOptInt}, SStr)
+			if !ex.vc.optintStrAxiom {
+				// a present number prints as its integer does
+				ex.vc.optintStrAxiom = true
+				ex.vc.extraAxioms = append(ex.vc.extraAxioms, "(assert (forall ((v Int)) (! (= (optint_str (oi_some v)) (int_str v)) :pattern ((optint_str (oi_some v))))))")
+				ex.vc.extraAxioms = append(ex.vc.extraAxioms, "(assert (forall ((o OptInt)) (! (=> (not (= o oi_none)) (= (optint_str o) (int_str (oi_val o)))) :pattern ((optint_str o)))))")
+			}
 			k(st, tv(Term{app("optint_str", args[0].T.S), SStr}), false)
 			return
 		}
